@@ -40,6 +40,29 @@ SAME_WIDTH = {'bvadd', 'bvand', 'bvashr', 'bvmul', 'bvnand', 'bvneg',
 NONSTANDARD = {'>>', 'bvshr'}
 
 
+# SMT-LIB result sorts of operators a name pattern could admit (strings,
+# regular expressions, sequences); used only for pattern branches
+SORT_UNIVERSE = {}
+for _o in BOOL_OPS:
+    SORT_UNIVERSE[_o] = ('Bool', )
+for _o in INT_OPS:
+    SORT_UNIVERSE[_o] = ('Int', )
+for _o in REAL_OPS:
+    SORT_UNIVERSE[_o] = ('Real', )
+for _o in ('str.++', 'str.at', 'str.substr', 'str.replace',
+           'str.replace_all', 'str.replace_re', 'str.replace_re_all',
+           'str.from_code', 'str.from_int', 'int.to.str'):
+    SORT_UNIVERSE[_o] = ('String', )
+for _o in ('str.to_re', 'str.to.re', 're.none', 're.all', 're.allchar',
+           're.++', 're.union', 're.inter', 're.*', 're.comp', 're.diff',
+           're.+', 're.opt', 're.range', 're.loop', 're.^'):
+    SORT_UNIVERSE[_o] = ('RegLan', )
+for _o in ('seq.len', 'seq.indexof'):
+    SORT_UNIVERSE[_o] = ('Int', )
+for _o in ('seq.contains', 'seq.prefixof', 'seq.suffixof'):
+    SORT_UNIVERSE[_o] = ('Bool', )
+
+
 def ref_sort(op):
     if op in BOOL_OPS:
         return ('Bool', )
@@ -172,6 +195,10 @@ def _abstract_sort_result(f, ret, param):
         return ('Int', )
     if t == "Node('Real')":
         return ('Real', )
+    if isinstance(v, ast.Call) and call_name(v) == 'Node' and len(
+            v.args) == 1 and is_const(v.args[0]) and isinstance(
+                v.args[0].value, str):
+        return (v.args[0].value, )
     if isinstance(v, ast.Call) and call_name(v) == 'get_sort' and isinstance(
             v.args[0], ast.Subscript) and unparse(
                 v.args[0].value) == param and is_const(v.args[0].slice):
@@ -293,6 +320,40 @@ def rule_r1_r2(chk, prog):
                       f'operator {op} is given result {got}; SMT-LIB: {want}',
                       loc=m.loc(st), nontrivial=True)
     chk.floor('C16.R1', 'operators in the result-sort table', nops, 75)
+    # branches that select operators by a pattern on the name instead of an
+    # explicit list: every SMT-LIB operator the pattern admits (and no
+    # earlier branch decides) must have the returned sort
+    explicit = set()
+    for st in ast.walk(f):
+        if isinstance(st, ast.If):
+            ops_, _k = _ops_of_test(st.test, 'ident')
+            explicit.update(o for o in (ops_ or []) if isinstance(o, str))
+    for st in ast.walk(f):
+        if not isinstance(st, ast.If):
+            continue
+        pat = None
+        for c in ast.walk(st.test):
+            if isinstance(c, ast.Call) and isinstance(
+                    c.func, ast.Attribute) and c.func.attr in (
+                        'startswith', 'endswith') and c.args and is_const(
+                            c.args[0]) and 'ident' in unparse(c.func.value):
+                pat = (c.func.attr, c.args[0].value)
+        if pat is None:
+            continue
+        direct = [s_ for s_ in st.body if isinstance(s_, ast.Return)]
+        if not direct:
+            continue
+        got = _abstract_sort_result(f, direct[-1], param)
+        admitted = [o for o in sorted(SORT_UNIVERSE)
+                    if getattr(o, pat[0])(pat[1]) and o not in explicit]
+        for o in admitted:
+            want = SORT_UNIVERSE[o]
+            ok = got == want or got == ('unknown', )
+            chk.check('C16.R1', where, f'{pat[0]}({pat[1]!r}) admits {o} '
+                      f'-> {got}', ok,
+                      f'the branch "{unparse(st.test)[:60]}" gives every '
+                      f'operator it admits the result {got}; SMT-LIB: {o} '
+                      f'returns {want}', loc=m.loc(st), nontrivial=True)
     # ite (handled before ident)
     ites = [st for st in ast.walk(f) if isinstance(st, ast.If)
             and "is_operator_app(node, 'ite')" in unparse(st.test)]
@@ -976,6 +1037,54 @@ def rule_r5(chk, prog):
             chk.check('C16.R5', where, f'quantifier binder sort = {v}',
                       v == 'term', 'a quantified symbol must get the '
                       'declared sort', loc=m.loc(s), nontrivial=True)
+    # a sort computed inside a try block and stored after it: a handler that
+    # falls through must overwrite it, otherwise the value of the previous
+    # binding / iteration is stored for this symbol
+    ntry = 0
+    for t_ in ast.walk(f):
+        if not isinstance(t_, ast.Try):
+            continue
+        assigned = {x.targets[0].id for b_ in t_.body for x in ast.walk(b_)
+                    if isinstance(x, ast.Assign) and len(x.targets) == 1
+                    and isinstance(x.targets[0], ast.Name)}
+        if not assigned:
+            continue
+        # statements after the try, up to the end of the enclosing loop body
+        after = []
+        cur = t_
+        par = getattr(cur, '_parent', None)
+        while par is not None and par is not f:
+            for fld in ('body', 'orelse', 'finalbody'):
+                blk = getattr(par, fld, None)
+                if isinstance(blk, list) and cur in blk:
+                    after += blk[blk.index(cur) + 1:]
+            if isinstance(par, (ast.For, ast.While)):
+                break
+            cur = par
+            par = getattr(par, '_parent', None)
+        used = {x.id for a_ in after for x in ast.walk(a_)
+                if isinstance(x, ast.Name) and isinstance(x.ctx, ast.Load)}
+        for v_ in sorted(assigned & used):
+            for h in t_.handlers:
+                last = h.body[-1] if h.body else None
+                if isinstance(last, (ast.Continue, ast.Break, ast.Return,
+                                     ast.Raise)):
+                    continue
+                ntry += 1
+                sets = any(isinstance(x, ast.Assign) and any(
+                    isinstance(tg, ast.Name) and tg.id == v_
+                    for tg in x.targets) for b_ in h.body
+                    for x in ast.walk(b_))
+                chk.check('C16.R5', where, f'handler resets "{v_}"', sets,
+                          f'"{v_}" is computed inside a try block and used '
+                          'after it, but the handler falls through without '
+                          f'assigning "{v_}": when the computation raises, '
+                          'the value of the previous binding (or of the '
+                          'previous iteration) is stored - a definite wrong '
+                          'sort instead of "unknown"', loc=m.loc(h),
+                          nontrivial=True)
+    chk.floor('C16.R5', 'fall-through handlers around sort inference', ntry,
+              1)
     # datatypes: constructor -> its own datatype
     cons = [s for s in ast.walk(f) if isinstance(s, ast.Assign) and unparse(
         s.targets[0]).startswith('__datatypes_constructors[')]
